@@ -177,3 +177,68 @@ func SpecEntries(content []byte) map[[32]byte]bool {
 	}
 	return out
 }
+
+// NearEntryShapes: lines that are NOT well-formed entries but are built from the very bytes of key
+// k - the shapes a sloppy parser is most likely to let through. A client holding k must not get
+// in through any of them.
+var NearEntryShapes = []string{"bare-b64", "bare-b64-spaces", "prefix-upper", "prefix-mixed-case", "prefix-no-last-dash",
+	"prefix-twice", "prefix-kem", "prefix-sign", "prefix-v2", "prefix-tail-only", "dash-only", "prefix-after",
+	"urlsafe", "bare-urlsafe", "no-padding", "bare-no-padding", "extra-padding", "double-padding",
+	"junk-before-space", "junk-before-tab", "junk-after-space", "junk-after-tab", "bare-junk-after", "quoted", "prefix-space-b64"}
+
+func NearEntry(shape string, k [32]byte) string {
+	enc := base64.StdEncoding.EncodeToString(k[:])
+	switch shape {
+	case "bare-b64":
+		return enc
+	case "bare-b64-spaces":
+		return " " + enc + "\t"
+	case "prefix-upper":
+		return strings.ToUpper(prefix) + enc
+	case "prefix-mixed-case":
+		return "Hop-Dh-V1-" + enc
+	case "prefix-no-last-dash":
+		return prefix[:len(prefix)-1] + enc
+	case "prefix-twice":
+		return prefix + prefix + enc
+	case "prefix-kem":
+		return "hop-kem-v1-" + enc
+	case "prefix-sign":
+		return "hop-sign-v1-" + enc
+	case "prefix-v2":
+		return "hop-dh-v2-" + enc
+	case "prefix-tail-only":
+		return "dh-v1-" + enc
+	case "dash-only":
+		return "-" + enc
+	case "prefix-after":
+		return enc + prefix
+	case "urlsafe":
+		return prefix + base64.URLEncoding.EncodeToString(k[:])
+	case "bare-urlsafe":
+		return base64.URLEncoding.EncodeToString(k[:])
+	case "no-padding":
+		return prefix + base64.RawStdEncoding.EncodeToString(k[:])
+	case "bare-no-padding":
+		return base64.RawStdEncoding.EncodeToString(k[:])
+	case "extra-padding":
+		return prefix + enc + "="
+	case "double-padding":
+		return prefix + enc + "=="
+	case "junk-before-space":
+		return "ssh-ed25519 " + prefix + enc
+	case "junk-before-tab":
+		return "x\t" + prefix + enc
+	case "junk-after-space":
+		return prefix + enc + " user@host"
+	case "junk-after-tab":
+		return prefix + enc + "\tlaptop"
+	case "bare-junk-after":
+		return enc + " user@host"
+	case "quoted":
+		return "\"" + prefix + enc + "\""
+	case "prefix-space-b64":
+		return prefix + " " + enc
+	}
+	panic("unknown near-entry shape " + shape)
+}
